@@ -245,6 +245,42 @@ def _has_exit(n):
     return any(_has_exit(c) for c in n.get('inner', ()) if isinstance(c, dict))
 
 
+def _leaves(n):
+    """statement definitely leaves the enclosing loop: return, or break not nested in an inner loop/switch"""
+    k = n.get('kind')
+    if k in ('ReturnStmt', 'BreakStmt'):
+        return True
+    if k == 'CompoundStmt':
+        inner = [c for c in n.get('inner', ()) if isinstance(c, dict)]
+        return bool(inner) and _leaves(inner[-1])
+    if k == 'IfStmt':
+        inner = [c for c in n.get('inner', ()) if isinstance(c, dict)]
+        return len(inner) == 3 and _leaves(inner[1]) and _leaves(inner[2])
+    return False
+
+
+def _continuing_part(n):
+    """the sub-trees of a loop body that can execute on an iteration that goes round again"""
+    k = n.get('kind')
+    if k == 'CompoundStmt':
+        out = []
+        for c in n.get('inner', ()):
+            if not isinstance(c, dict):
+                continue
+            if _leaves(c):
+                break
+            out += _continuing_part(c)
+        return out
+    if k == 'IfStmt':
+        inner = [c for c in n.get('inner', ()) if isinstance(c, dict)]
+        out = [inner[0]]
+        for br in inner[1:]:
+            if not _leaves(br):
+                out += _continuing_part(br)
+        return out
+    return [n]
+
+
 def _has_ret(n):
     if n.get('kind') in ('ReturnStmt', 'GotoStmt'):
         return True
@@ -318,13 +354,18 @@ def classify_loop(loop):
             txt = repr(body)
             if "'value': '0'" in txt and _has_exit(body):
                 return ('scan', base['referencedDecl'].get('name'))
-    # no progress: nothing the condition reads is ever changed inside the loop, and the body neither calls nor stores through pointers
+    # no progress: on an iteration that returns to the loop head (statements of branches that leave by return/break are
+    # not on such an iteration) nothing is stored, stepped or called -- the state at the loop head repeats
     crefs = set()
     _refs(cond, crefs)
-    changed = set(s[0] for s in steps + body_assign)
-    txt = repr(body) + repr(inc)
-    if crefs and not (crefs & changed) and "'kind': 'CallExpr'" not in txt and "'opcode': '='" not in txt:
-        return ('infinite', 'nothing the loop condition depends on changes inside the loop')
+    cont = [cond] + _continuing_part(body) + ([inc] if inc and inc.get("kind") else [])
+    cont_assign = []
+    for c_ in cont:
+        _assigned_vars(c_, cont_assign)
+    txt = ''.join(repr(c_) for c_ in cont)
+    if crefs and not cont_assign and "'kind': 'CallExpr'" not in txt and "'opcode': '='" not in txt \
+            and "'kind': 'CompoundAssignOperator'" not in txt and "'opcode': '++'" not in txt and "'opcode': '--'" not in txt:
+        return ('infinite', 'an iteration that does not leave the loop changes nothing: the loop head state repeats')
     if loop.get('_mac') in ('list_for_each_entry', 'list_for_each_entry_safe', 'json_array_foreach', 'json_object_foreach'):
         return ('macro-iter', loop.get('_mac'))
     return ('unknown', 'unrecognised loop shape')
@@ -367,7 +408,7 @@ def check_termination(chk, prog, eff, roots, rule='C06.termination'):
         raise AnalysisBroken('termination: loop at %s:%s in %s has an unrecognised shape (%s): undecided'
                              % (lp.get('_f'), lp.get('_l'), k[1], detail))
     chk.rule(rule, 'call graph under the entry point is acyclic and every loop is a constant-step counter against an invariant bound or a '
-                   'scan of the NUL-terminated private copy', n, bad, floor=6)
+                   'scan of the NUL-terminated private copy', n, bad, floor=3)
     chk.coverage['loops_classified'] = len(loops)
 
 
